@@ -294,7 +294,10 @@ theorem arp_dispatch_clash :
 /-! ### 4. IP set names -/
 
 /-- IP set names fit the limit, and two ids get the same name iff they agree on
-the first `limit - len(prefix)` bytes (ids are themselves hashes: stated as such). -/
+the first `limit - len(prefix)` bytes. NOTE: this is the exact characterisation, not
+"distinct IP sets get distinct names": set ids are themselves hashes, so distinctness of
+the NAMES rests on the (cryptographic, unproved) assumption that two set ids differ
+within their first `31 - len(prefix)` bytes. -/
 theorem ipset_names (p s1 s2 : Str) (M : Nat) (hp : p.length ≤ M) :
     (combineAndTrunc p s1 M).length ≤ M ∧
     (combineAndTrunc p s1 M = combineAndTrunc p s2 M ↔
@@ -304,6 +307,30 @@ theorem ipset_names (p s1 s2 : Str) (M : Nat) (hp : p.length ≤ M) :
   · simp only [List.length_take]; omega
   · rw [List.take_append, List.take_append, List.take_of_length_le hp]
     exact ⟨fun h => List.append_cancel_left h, fun h => by rw [h]⟩
+
+/-- Main and temporary IP set names never coincide: right after the versioned
+prefix the main name carries `mainIpsetToken` and the temporary one
+`tempIpsetToken` (single, different bytes), provided the limit leaves room for
+prefix + version + token. -/
+theorem ipset_temp_main_disjoint (np id : Str) (v6 : Bool) (a b : Nat) (n M : Nat)
+    (hab : a ≠ b) (hroom : np.length + 2 ≤ M) :
+    nameForMainIPSet np v6 [a] M id ≠ nameForTempIPSet np v6 [b] n := by
+  intro e
+  have := congrArg (fun l => l[np.length + 1]?) e
+  simp only [nameForMainIPSet, mainSetNamePrefix, nameForTempIPSet, combineAndTrunc_eq] at this
+  rw [List.getElem?_take_of_lt (by omega)] at this
+  simp at this
+  exact hab this
+
+/-- … instantiated with the generated tokens (`"0"` vs `"t"`) and limit (31): for the
+default `cali` prefix and any prefix of at most 29 bytes. -/
+theorem ipset_temp_main_disjoint_gen (np id : Str) (v6 : Bool) (n : Nat) (hnp : np.length ≤ 29) :
+    nameForMainIPSet np v6 Gen.mainIpsetToken Gen.maxIPSetNameLength id ≠
+      nameForTempIPSet np v6 Gen.tempIpsetToken n :=
+  ipset_temp_main_disjoint np id v6 48 116 n 31 (by decide) (by omega)
+
+theorem tempIPSet_shape : Gen.nameForTempIPSetExpr = "fmt.Sprint(c.tempSetNamePrefix, n)" ∧
+    Gen.mainIpsetToken = [48] ∧ Gen.tempIpsetToken = [116] := by decide
 
 example : nameForMainIPSet Gen.ipSetNamePrefix false Gen.mainIpsetToken Gen.maxIPSetNameLength
     [115, 58, 65, 66] = [99, 97, 108, 105, 52, 48, 115, 58, 65, 66] := by decide
@@ -419,6 +446,43 @@ theorem policy_chain_names_distinct (hlen : ∀ s, (hash s).length = 43) {p q : 
   have nonempty : ∀ r : PolicyID, r.id ≠ [] := by
     intro r; unfold PolicyID.id; split <;> simp
   exact names_distinct hash hlen hid (nonempty p) (nonempty q) hcrypto g1 g2
+
+/-- An injective toy hash with 43-character values (pad / cut the input to 43
+bytes): used to show that the hypotheses of the distinctness theorems are
+JOINTLY satisfiable. -/
+def toyHash (s : Str) : Str := (s ++ List.replicate 43 0).take 43
+
+theorem toyHash_length (s : Str) : (toyHash s).length = 43 := by
+  simp [toyHash, List.length_take]
+
+/-- Joint non-vacuity of `names_distinct`: with the toy hash, `hlen` and `hcrypto`
+hold together for two 5-byte identities that both need shortening under
+prefix `c-`, limit 6; the conclusion is the concrete `c-_aaa ≠ c-_bbb`. -/
+example : ([99, 45, 95, 97, 97, 97] : Str) ≠ [99, 45, 95, 98, 98, 98] :=
+  names_distinct toyHash toyHash_length (p := [99, 45]) (m := 6)
+    (s1 := [97, 97, 97, 97, 97]) (s2 := [98, 98, 98, 98, 98])
+    (by decide) (by decide) (by decide) (by decide) (by decide) (by decide)
+
+/-- Joint non-vacuity of `policy_chain_names_distinct`: NetworkPolicy `a` vs `b`
+(no namespace) under `cali-pi-` and the iptables limit, with the toy hash. -/
+example : ∀ n1 n2,
+    getLengthLimitedID toyHash Gen.pfx_PolicyInboundPfx
+      (PolicyID.mk [97] [] [78, 101, 116, 119, 111, 114, 107, 80, 111, 108, 105, 99, 121]).id
+      Gen.maxChainNameLengthIptables = some n1 →
+    getLengthLimitedID toyHash Gen.pfx_PolicyInboundPfx
+      (PolicyID.mk [98] [] [78, 101, 116, 119, 111, 114, 107, 80, 111, 108, 105, 99, 121]).id
+      Gen.maxChainNameLengthIptables = some n2 → n1 ≠ n2 := by
+  intro n1 n2 g1 g2
+  have hv : ∀ c : Nat, c = 97 ∨ c = 98 → dnsChar c := by
+    intro c hc; unfold dnsChar; omega
+  have hk : knownKind [78, 101, 116, 119, 111, 114, 107, 80, 111, 108, 105, 99, 121] :=
+    ⟨([78, 101, 116, 119, 111, 114, 107, 80, 111, 108, 105, 99, 121], [110, 112]), by decide, rfl⟩
+  refine policy_chain_names_distinct toyHash toyHash_length
+    hk hk ⟨?_, ?_⟩ ⟨?_, ?_⟩ (by decide) (by decide) g1 g2
+  · intro c hc; simp at hc; exact hv c (Or.inl hc)
+  · intro c hc; simp at hc
+  · intro c hc; simp at hc; exact hv c (Or.inr hc)
+  · intro c hc; simp at hc
 
 /-- Non-vacuity: a valid two-policy group, its pre-hash string, and the same
 group with one policy's Kind changed (a different pre-hash string). -/
